@@ -131,6 +131,8 @@ fn consume_iter<E: Elem, I: DoubleEndedIterator<Item = E>>(mut it: I, how: Consu
 pub struct VecPair<A: Elem, B: Elem> {
     pub b: Option<BVec<'static, A>>,
     pub s: Option<Vec<B>>,
+    pub held_it: Option<(bumpalo::collections::vec::IntoIter<'static, A>, std::vec::IntoIter<B>)>,
+    pub held_dr: Option<(bumpalo::collections::vec::Drain<'static, 'static, A>, std::vec::Drain<'static, B>)>,
     pub boxes: Vec<(bumpalo::boxed::Box<'static, [A]>, Box<[B]>)>,
     /// buffer address and capacity promises (for C18d)
     pub promised: Option<(usize, usize)>,
@@ -150,6 +152,19 @@ impl<A: Elem, B: Elem> VecPair<A, B> {
             s: None,
             boxes: Vec::new(),
             promised: None,
+            held_it: None,
+            held_dr: None,
+        }
+    }
+
+    pub fn release_held(&mut self) {
+        if let Some((bi, si)) = self.held_it.take() {
+            let _ = b_call(move || drop(bi));
+            drop(si);
+        }
+        if let Some((bd, sd)) = self.held_dr.take() {
+            let _ = b_call(move || drop(bd));
+            drop(sd);
         }
     }
 
@@ -166,6 +181,23 @@ impl<A: Elem, B: Elem> VecPair<A, B> {
 
     /// element-wise comparison of the two worlds' contents
     pub fn compare(&self) -> Result<(), String> {
+        if self.held_dr.is_some() {
+            // the vector is mutably borrowed by the live drain; it is compared again afterwards
+            return Ok(());
+        }
+        if let Some((bi, si)) = &self.held_it {
+            let (x, y) = (bi.as_slice(), si.as_slice());
+            if x.len() != y.len() {
+                return Err(format!("held iterator has {} elements left vs std {}", x.len(), y.len()));
+            }
+            if !A::ZST {
+                for (i, (a, b)) in x.iter().zip(y.iter()).enumerate() {
+                    if key(a) != key(b) || !a.intact() {
+                        return Err(format!("held iterator element {}: {:?} vs std {:?}", i, key(a), key(b)));
+                    }
+                }
+            }
+        }
         match (&self.b, &self.s) {
             (None, None) => Ok(()),
             (Some(bv), Some(sv)) => {
@@ -198,8 +230,14 @@ impl<A: Elem, B: Elem> VecPair<A, B> {
             return Ok(());
         }
         let mut ids: Vec<u32> = Vec::new();
+        if self.held_dr.is_some() {
+            return Ok(());
+        }
         if let Some(bv) = &self.b {
             ids.extend(bv.iter().map(|e| e.eid()));
+        }
+        if let Some((bi, _)) = &self.held_it {
+            ids.extend(bi.as_slice().iter().map(|e| e.eid()));
         }
         for (bb, _) in &self.boxes {
             ids.extend(bb.iter().map(|e| e.eid()));
@@ -216,6 +254,7 @@ impl<A: Elem, B: Elem> VecPair<A, B> {
     }
 
     pub fn drop_all(&mut self) {
+        self.release_held();
         let b = self.b.take();
         let s = self.s.take();
         let _ = b_call(move || drop(b));
@@ -295,6 +334,68 @@ impl<A: Elem, B: Elem> VecPair<A, B> {
     }
 
     pub fn exec(&mut self, bump: &'static Bump, op: &VOp) -> OpOutcome {
+        match op {
+            VOp::IterNext { back } => {
+                if let Some((bi, si)) = self.held_it.as_mut() {
+                    let b = b_call(|| if *back { bi.next_back() } else { bi.next() }).map(|o| Ret::Elems(o.map(take_elem).into_iter().collect()));
+                    let s = s_call(|| if *back { si.next_back() } else { si.next() }).map(|o| Ret::Elems(o.map(take_elem).into_iter().collect()));
+                    return OpOutcome { b, s, extra: None };
+                }
+                if let Some((bd, sd)) = self.held_dr.as_mut() {
+                    let b = b_call(|| if *back { bd.next_back() } else { bd.next() }).map(|o| Ret::Elems(o.map(take_elem).into_iter().collect()));
+                    let s = s_call(|| if *back { sd.next_back() } else { sd.next() }).map(|o| Ret::Elems(o.map(take_elem).into_iter().collect()));
+                    return OpOutcome { b, s, extra: None };
+                }
+                return OpOutcome { b: Ok(Ret::Unit), s: Ok(Ret::Unit), extra: None };
+            }
+            VOp::IterRelease => {
+                self.release_held();
+                return OpOutcome { b: Ok(Ret::Unit), s: Ok(Ret::Unit), extra: None };
+            }
+            _ => {}
+        }
+        // any other op on this client ends a live iterator / drain first
+        self.release_held();
+        if let VOp::IterHold = op {
+            self.ensure(bump);
+            let bv = self.b.take().unwrap();
+            let sv = self.s.take().unwrap();
+            self.promised = None;
+            let rb = b_call(move || bv.into_iter());
+            let rs = s_call(move || sv.into_iter());
+            return match (rb, rs) {
+                (Ok(bi), Ok(si)) => {
+                    self.held_it = Some((bi, si));
+                    OpOutcome { b: Ok(Ret::Unit), s: Ok(Ret::Unit), extra: None }
+                }
+                (rb, rs) => OpOutcome { b: rb.map(|_| Ret::Unit), s: rs.map(|_| Ret::Unit), extra: None },
+            };
+        }
+        if let VOp::DrainHold(r) = op {
+            self.ensure(bump);
+            let len = self.len();
+            let range = (r.lo.at(len), r.hi.at(len));
+            self.promised = None;
+            // the vectors live in this struct, whose address is stable for the whole run
+            let bvp: *mut BVec<'static, A> = self.b.as_mut().unwrap();
+            let svp: *mut Vec<B> = self.s.as_mut().unwrap();
+            let rb = b_call(|| unsafe { (*bvp).drain(range) });
+            let rs = s_call(|| unsafe { (*svp).drain(range) });
+            return match (rb, rs) {
+                (Ok(bd), Ok(sd)) => {
+                    self.held_dr = Some((bd, sd));
+                    OpOutcome { b: Ok(Ret::Unit), s: Ok(Ret::Unit), extra: None }
+                }
+                (rb, rs) => {
+                    let b = rb.map(|d| {
+                        let _ = b_call(move || drop(d));
+                        Ret::Unit
+                    });
+                    let s = rs.map(|_| Ret::Unit);
+                    OpOutcome { b, s, extra: None }
+                }
+            };
+        }
         if let VOp::Recreate(c) = op {
             return self.construct(bump, *c);
         }
@@ -614,6 +715,7 @@ impl<A: Elem, B: Elem> VecPair<A, B> {
                 (Ok(Ret::Unit), Ok(Ret::Unit))
             }
             VOp::IntoIter(_) | VOp::IntoBumpSlice { .. } | VOp::IntoBoxedSlice | VOp::DropVec | VOp::Recreate(_) | VOp::DropHeldBox => unreachable!(),
+            VOp::IterHold | VOp::DrainHold(_) | VOp::IterNext { .. } | VOp::IterRelease => unreachable!(),
         };
         // C13/C18(d): after a successful reserve(n) the next n pushed elements do not move the buffer
         let _ = (buf0, cap0);
@@ -671,6 +773,7 @@ impl<A: Elem + Copy> VecPair<A, A> {
             VOp::ExtendCopy { .. } | VOp::ExtendSlicesCopy { .. } | VOp::ExtendRef { .. } => {}
             _ => return None,
         }
+        self.release_held();
         self.ensure(bump);
         let bv = self.b.as_mut().unwrap();
         let sv = self.s.as_mut().unwrap();
@@ -714,6 +817,7 @@ impl VecPair<u8, u8> {
     pub fn exec_write(&mut self, bump: &'static Bump, op: &VOp) -> Option<OpOutcome> {
         use std::io::Write;
         let VOp::Write { n, seed, all } = op else { return None };
+        self.release_held();
         self.ensure(bump);
         let bv = self.b.as_mut().unwrap();
         let sv = self.s.as_mut().unwrap();
